@@ -1,7 +1,7 @@
 (* Dispatcher: one wire line = a list of cases [model_id; payload]. *)
 From Coq Require Import ZArith List Bool.
 From OV Require Import Base.Wire.
-From OV Require Model.NamedList Model.IsoTp Model.CodecWire.
+From OV Require Model.NamedList Model.IsoTp Model.CodecWire Model.Compu.
 Import ListNotations.
 Open Scope Z_scope.
 
@@ -13,6 +13,7 @@ Definition run_case (t : tok) : tok :=
   else if m =? 12 then IsoTp.run_case p
   else if m =? 112 then IsoTp.segment_case p
   else if m =? 1 then CodecWire.run_case p
+  else if m =? 7 then Compu.run_case p
   else TL [TZ (-999)].
 
 Definition run_wire (inp : list Z) : list Z :=
